@@ -167,3 +167,104 @@ Proof.
   - f_equal. rewrite Ho2. apply undo_exact; [apply ssorted_fold; exact Hb|exact Hu].
   - rewrite Ho. apply ssorted_fold. exact Hb.
 Qed.
+
+(* ------------------------------------------------------------------------------------------ *)
+(* the member set after loading a snapshot: the snapshot's member set (without this node), and - on
+   an install that keeps the log's suffix - the kept membership entries behind the snapshot's
+   position applied on top of it, in order *)
+
+Lemma load_dump_others e cl s sn :
+  stored (sr (nd s)) = Some (Good sn) -> cl && (eidx (s_e1 sn) <=? applied (nd s)) = false ->
+  s_ver sn <= self_ver (nd s) ->
+  let n' := nd (load_dump e cl s) in
+  let base := filter (fun x => negb (self_is x (nd s))) (s_cluster sn) in
+  self n' = self (nd s) /\
+  others n' =
+    (if dyn (cf e)
+     then if cl && snap_kept sn (log (nd s))
+          then fold_left (step_member (self (nd s)))
+                 (mem_ops (get_entries (log n') (Some (eidx (s_e1 sn) + 1)) None None)) base
+          else base
+     else others (nd s)).
+Proof.
+  intros Hs Hb Hv. cbv zeta.
+  destruct (load_dump_loaded e cl s sn Hs Hb Hv) as [Hlog _].
+  revert Hlog. unfold load_dump. rewrite Hs, Hb.
+  destruct (self_ver (nd s) <? s_ver sn) eqn:E; [apply N.ltb_lt in E; lia|].
+  cbv zeta. cbn [nd upd log set]. fold (snap_kept sn (log (nd s))).
+  match goal with |- context [update_cluster ?l ?s4] => set (s5 := s4) end.
+  match goal with |- context [update_cluster ?l s5] => set (new := l) end.
+  assert (E5 : others (nd s5) = others (nd s) /\ self (nd s5) = self (nd s)).
+  { subst s5. repeat (match goal with |- context [if ?b then _ else _] => destruct b end;
+                      cbn [nd upd others self set]); split; reflexivity. }
+  destruct E5 as [E5o E5s].
+  assert (Hnew : new = filter (fun x => negb (self_is x (nd s))) (s_cluster sn)).
+  { subst new. apply filter_ext. intros x. cbv beta.
+    match goal with |- negb (self_is x ?nx) = _ => assert (Ex : self nx = self (nd s)) end.
+    { repeat (match goal with |- context [if ?b then _ else _] => destruct b end; cbn [nd upd self set]);
+        reflexivity. }
+    unfold self_is. now rewrite Ex. }
+  clearbody s5 new. subst new.
+  destruct (dyn (cf e)); [|intros _; auto].
+  set (u := update_cluster _ s5).
+  assert (Eu : others (nd u) = filter (fun x => negb (self_is x (nd s))) (s_cluster sn) /\
+               self (nd u) = self (nd s) /\ log (nd u) = log (nd s5)).
+  { subst u. rewrite others_update_cluster. split; [reflexivity|].
+    rewrite (fr_update_cluster self), (fr_update_cluster log) by frs. auto. }
+  clearbody u. destruct Eu as (Eu1 & Eu2 & Eu3).
+  destruct (cl && snap_kept sn (log (nd s))).
+  - intros Hlog. rewrite (fr_apply_membership log) in Hlog by frs.
+    destruct (apply_membership_others false (get_entries (log (nd u)) (Some (eidx (s_e1 sn) + 1)) None None) u)
+      as [Ho Hself].
+    rewrite Ho, Hself, Eu2, Eu1, map_xorb_false.
+    rewrite (fr_apply_membership log) by frs. auto.
+  - intros _. auto.
+Qed.
+
+(* C09_install_keeps_suffix, member set *)
+Theorem install_members e from t c p n sn :
+  term n <= t -> recv_snapshot p (sr n) = Some (Good sn) ->
+  s_ver sn <= self_ver n -> applied n < eidx (s_e1 sn) ->
+  let n' := nd (on_message e from (AESnap t c p) n) in
+  let base := filter (fun x => negb (self_is x n)) (s_cluster sn) in
+  others n' =
+    (if dyn (cf e)
+     then if snap_kept sn (log n)
+          then fold_left (step_member (self n))
+                 (mem_ops (get_entries (log n') (Some (eidx (s_e1 sn) + 1)) None None)) base
+          else base
+     else others n).
+Proof.
+  intros Ht Hr Hv Ha. cbv zeta.
+  unfold on_message. rewrite on_append_entries_eq. cbn [nd start_S].
+  destruct (t <? term n) eqn:Et; [apply N.ltb_lt in Et; lia|].
+  set (s0 := ae_pre e from t c (start_S e n)).
+  assert (A0 : applied (nd s0) = applied n) by (apply (fr_ae_pre applied); frs).
+  assert (L0 : sr (nd s0) = sr n) by (apply (fr_ae_pre sr); frs).
+  assert (V0 : self_ver (nd s0) = self_ver n) by (apply (fr_ae_pre self_ver); frs).
+  assert (G0 : log (nd s0) = log n) by (apply (fr_ae_pre log); frs).
+  assert (O0 : others (nd s0) = others n) by (apply (fr_ae_pre others); frs).
+  assert (S0 : self (nd s0) = self n) by (apply (fr_ae_pre self); frs).
+  clearbody s0. unfold ae_body_of.
+  rewrite <- L0 in Hr. destruct (set_transmission_recv p s0 _ Hr) as [Hd Hst].
+  pose proof (fr_set_transmission applied) as F1. specialize (F1 ltac:(frs) p s0).
+  pose proof (fr_set_transmission self_ver) as F2. specialize (F2 ltac:(frs) p s0).
+  pose proof (fr_set_transmission log) as F3. specialize (F3 ltac:(frs) p s0).
+  pose proof (fr_set_transmission others) as F4. specialize (F4 ltac:(frs) p s0).
+  pose proof (fr_set_transmission self) as F5. specialize (F5 ltac:(frs) p s0).
+  destruct (set_transmission p s0) as [s2 dn]. cbn [fst snd] in *. subst dn.
+  assert (Hok : load_dump_ok s2 = true).
+  { unfold load_dump_ok. rewrite Hst, F1, A0, F2, V0.
+    apply andb_true_intro. split; [apply negb_true_iff, N.leb_gt; exact Ha|apply N.leb_le; exact Hv]. }
+  rewrite Hok. cbn [andb].
+  assert (Hb : true && (eidx (s_e1 sn) <=? applied (nd s2)) = false)
+    by (cbn; apply N.leb_gt; now rewrite F1, A0).
+  assert (Hv2 : s_ver sn <= self_ver (nd s2)) by now rewrite F2, V0.
+  destruct (load_dump_others e true s2 sn Hst Hb Hv2) as [_ Ho]. cbv zeta in Ho.
+  rewrite (fr_ae_commit others), (fr_ae_commit log) by frs. rewrite !nd_send_next_idx.
+  rewrite Ho. cbn [andb]. rewrite F3, G0, F4, O0, F5, S0.
+  assert (Hfil : filter (fun x => negb (self_is x (nd s2))) (s_cluster sn) =
+                 filter (fun x => negb (self_is x n)) (s_cluster sn)).
+  { apply filter_ext. intros x. unfold self_is. now rewrite F5, S0. }
+  now rewrite Hfil.
+Qed.
